@@ -8,3 +8,4 @@ import OapiVerif.Props.C06
 import OapiVerif.Props.C03
 import OapiVerif.Props.C13
 import OapiVerif.Props.C01
+import OapiVerif.Props.C17
